@@ -88,6 +88,22 @@ def make(rng, index, n_entries=None, volumes=None, names=None, dates=None,
                                  volume_rel=t['volume'], home=t['home'])
         e['tkind'] = t['kind']
         entries.append(e)
+    if entries and kinds is None and rng.random() < 0.15:
+        # an entry whose payload is a symlink that resolves to ANOTHER entry's
+        # payload (report.txt and 'latest -> report.txt' trashed together)
+        o = rng.choice(entries)
+        t = [x for x in trashes if x['rel'] == o['trash']][0]
+        if '/' not in o['name'] and '\n' not in o['name']:
+            base = (L.home if t['home'] else t['volume'])
+            loc = '/'.join(x for x in (base, 'docs', 'latest-%d' % index) if x)
+            date = dates[0] if dates else trashgen.rand_date(rng, tz=tz)
+            e = trashgen.add_trashed(L, rng, t['rel'], 'latest-%d' % index, loc,
+                                     date, 'link_dangling', 'c%dsib' % index,
+                                     volume_rel=t['volume'], home=t['home'],
+                                     link_target=o['name'])
+            e['tkind'] = t['kind']
+            e['kind'] = 'link_sibling'
+            entries.append(e)
     return L, trashes, entries
 
 
